@@ -615,24 +615,26 @@ pub fn record_shape(seed: u64, tier: &str, out: &str) {
     }
     // (iv) nodes created on many threads (treaps are Send), merged / inserted on one: every thread's priorities come
     // from that thread's generator, so generators that repeat each other across threads show up here
-    for &(threads, per) in &[(64usize, 1usize), (600, 1), (2000, 1), (48, 40), (300, 7)] {
-        let parts: Vec<Treap<TItem>> = (0..threads)
-            .map(|_| std::thread::spawn(move || {
-                let mut tr: Treap<TItem> = Treap::new();
-                for i in 0..per {
-                    tr.insert_at(i, TItem::new(1));
-                }
-                tr
-            }))
-            .collect::<Vec<_>>()
-            .into_iter()
-            .map(|h| h.join().unwrap())
-            .collect();
+    for &(threads, per, one_by_one) in &[(64usize, 1usize, false), (600, 1, false), (2000, 1, false), (48, 40, false), (300, 7, false),
+                                         (200, 300, false), (120, 120, false), (150, 1, true), (150, 20, true)] {
+        let work = move || {
+            let mut tr: Treap<TItem> = Treap::new();
+            for i in 0..per {
+                tr.insert_at(i, TItem::new(1));
+            }
+            tr
+        };
+        let parts: Vec<Treap<TItem>> = if one_by_one {
+            // workers whose lifetimes do not overlap
+            (0..threads).map(|_| std::thread::spawn(work).join().unwrap()).collect()
+        } else {
+            (0..threads).map(|_| std::thread::spawn(work)).collect::<Vec<_>>().into_iter().map(|h| h.join().unwrap()).collect()
+        };
         let mut all: Treap<TItem> = Treap::new();
         for p in parts {
             all = Treap::merge(all, p);
         }
-        ckpt(&mut t, &all, &format!("{} threads x {} nodes merged on one thread", threads, per));
+        ckpt(&mut t, &all, &format!("{} threads{} x {} nodes merged on one thread", threads, if one_by_one { " (one after the other)" } else { "" }, per));
         checkpoints += 1;
     }
     let ev = t.finish();
